@@ -238,21 +238,25 @@ ReadTransforms(b, p0, w, h) ==
                                 !.ts = Append(st.ts, [type |-> 3, bits |-> xb, xs |-> st.xs, data |-> pal])]
   IN FoldLeft(Step, [p |-> p0, xs |-> w, ts |-> <<>>, more |-> TRUE, ok |-> TRUE], <<1,2,3,4,5>>)
 
+\* Decode the image stream that starts at bit p0 of b for a w x h picture (the part of a VP8L chunk after its 5-byte
+\* header; an ALPH chunk with compression 1 holds exactly such a stream after its header byte).
+DecodeStreamAt(b, p0, w, h, abit) ==
+  LET tr == ReadTransforms(b, p0, w, h) IN
+  IF ~tr.ok \/ tr.more THEN [ok |-> FALSE, why |-> "transforms", w |-> w, h |-> h, alpha |-> abit, tlist |-> <<>>, pix |-> <<>>]
+  ELSE LET d == MainImage(b, tr.p, tr.xs, h)
+           n == Len(tr.ts)
+           Inv(pix, k) == LET t == tr.ts[n + 1 - k] IN
+                CASE t.type = 0 -> InvPredictor(t, pix, h) [] t.type = 1 -> InvCrossColor(t, pix, h)
+                  [] t.type = 2 -> InvSubGreen(pix) [] t.type = 3 -> InvPalette(t, pix, h)
+           why == [k \in 1..n |-> tr.ts[k].type]
+       IN IF ~d.ok THEN [ok |-> FALSE, why |-> "pixel data", w |-> w, h |-> h, alpha |-> abit, tlist |-> why, pix |-> <<>>]
+          ELSE IF d.p > 8 * Len(b) THEN [ok |-> FALSE, why |-> "stream ends before the last pixel", w |-> w, h |-> h, alpha |-> abit, tlist |-> why, pix |-> <<>>]
+          ELSE [ok |-> TRUE, why |-> "", w |-> w, h |-> h, alpha |-> abit, tlist |-> why, endbit |-> d.p,
+                pix |-> FoldLeft(Inv, d.pix, [k \in 1..n |-> k])]
+
 \* Decode a VP8L payload (the bytes of the VP8L chunk). Result: [ok, why, w, h, alpha, tlist, pix]
 DecodeVP8L(b) ==
-  LET w == Bits(b, 8, 14) + 1   h == Bits(b, 22, 14) + 1
-  IN IF Len(b) < 5 \/ b[1] # 47 \/ Bits(b, 37, 3) # 0 THEN [ok |-> FALSE, why |-> "header", w |-> 0, h |-> 0, alpha |-> 0, tlist |-> <<>>, pix |-> <<>>]
-     ELSE LET tr == ReadTransforms(b, 40, w, h) IN
-          IF ~tr.ok \/ tr.more THEN [ok |-> FALSE, why |-> "transforms", w |-> w, h |-> h, alpha |-> Bit(b, 36), tlist |-> <<>>, pix |-> <<>>]
-          ELSE LET d == MainImage(b, tr.p, tr.xs, h)
-                   n == Len(tr.ts)
-                   Inv(pix, k) == LET t == tr.ts[n + 1 - k] IN
-                        CASE t.type = 0 -> InvPredictor(t, pix, h) [] t.type = 1 -> InvCrossColor(t, pix, h)
-                          [] t.type = 2 -> InvSubGreen(pix) [] t.type = 3 -> InvPalette(t, pix, h)
-                   why == [k \in 1..n |-> tr.ts[k].type]
-               IN IF ~d.ok THEN [ok |-> FALSE, why |-> "pixel data", w |-> w, h |-> h, alpha |-> Bit(b, 36), tlist |-> why, pix |-> <<>>]
-                  ELSE IF d.p > 8 * Len(b) THEN [ok |-> FALSE, why |-> "stream ends before the last pixel", w |-> w, h |-> h, alpha |-> Bit(b, 36), tlist |-> why, pix |-> <<>>]
-                  ELSE [ok |-> TRUE, why |-> "", w |-> w, h |-> h, alpha |-> Bit(b, 36), tlist |-> why, endbit |-> d.p,
-                        pix |-> FoldLeft(Inv, d.pix, [k \in 1..n |-> k])]
+  IF Len(b) < 5 \/ b[1] # 47 \/ Bits(b, 37, 3) # 0 THEN [ok |-> FALSE, why |-> "header", w |-> 0, h |-> 0, alpha |-> 0, tlist |-> <<>>, pix |-> <<>>]
+  ELSE DecodeStreamAt(b, 40, Bits(b, 8, 14) + 1, Bits(b, 22, 14) + 1, Bit(b, 36))
 
 =============================================================================
